@@ -66,6 +66,8 @@ impl SignedHeaderRequirements for VecSignedHeaderRequirements {
 //@ end
 }
 
+pub mod req_m {
+use super::*;
 /// C05 ("declared names match case-insensitively"): a list declares a name when one of its entries equals it up to ASCII case
 pub open spec fn declares(list: Seq<Seq<u8>>, name: Seq<u8>) -> bool { exists|i: int| 0 <= i < list.len() && lower(#[trigger] list[i]) == lower(name) }
 pub proof fn lemma_lower_idem(s: Seq<u8>)
@@ -258,3 +260,5 @@ impl VecSignedHeaderRequirements {
         proof { lemma_list_remove(old(self).prefixes_spec(), prefix.spec_bytes()); }
 //@ end
 }
+} // mod req_m
+pub use req_m::*;
